@@ -68,6 +68,7 @@ pub fn child_enum(n: usize, check: &CheckFn) -> i32 {
 			},
 		}
 	}
+	stats.extra.insert("enumerated_cases".into(), json!(n));
 	emit(&format!("S {}", stats.to_json()));
 	emit("D");
 	0
